@@ -29,6 +29,8 @@ LAYOUTS = {
     # collections (partitioned / multi-range arrays) that some values miss
     "partial_counted": [['c', 'arr', 2, [0, 2]]],
     "partial_multi": [['m', 'arr', None, 0, 2]],
+    # one-bin-per-value array whose first entry is a range (a multi-bin child before further values)
+    "range_then_value": [['a', 'arr', None, [0, 1], 3]],
 }
 
 
@@ -42,6 +44,9 @@ def specs(tier):
             xiff, i0, i1 = iffs
             sp = {'cps': [{'type': ('bit', 2), 'bins': LAYOUTS[l0], 'iff': i0}, {'type': ('bit', 2), 'bins': LAYOUTS[l1], 'iff': i1}],
                   'crosses': [['x01', [0, 1], xiff]]}
+            if iffs[0] is None and iffs[1] is None:
+                # a second cross of the same arity over the same coverpoints in the other order (another shape)
+                sp['crosses'] = [['x01', [0, 1], None], ['x10', [1, 0], None]]
             out.append(sp)
     for l0, l1, l2 in ([("two_single", "array", "partial"), ("single_then_array", "auto", "two_single"),
                         ("partial", "partial", "array_then_single"), ("counted", "two_single", "two_single")]):
@@ -72,6 +77,8 @@ def run_case(spec):
         if len(viol) < 4:
             viol.append({"subcheck": sub, "case": {"spec": spec, "seq": seq}, "observed": obs, "expected": exp,
                          "what": "cross over layouts %r: %s" % ([[b[0] for b in (cp['bins'] or [['auto']])] for cp in cps], what)})
+
+    type_diff = []
 
     def fresh():
         CoverageRegistry.clear()
@@ -113,7 +120,14 @@ def run_case(spec):
             cg.sample(*cov.sample_args(spec, vals, ens, enx))
         cnt["executions"] += 1
         cnt["transitions"] += len(seq)
-        return [[cr.get_bin_hits(i) for i in range(cr.get_n_bins())] for cr in m.cross_l], m
+        inst = [[cr.get_bin_hits(i) for i in range(cr.get_n_bins())] for cr in m.cross_l]
+        # the type-level copy of the covergroup (what reports show) counts the same joint hits: one instance only
+        t = m.type_cg
+        if t is not None and t is not m:
+            tl = [[cr.get_bin_hits(i) for i in range(cr.get_n_bins())] for cr in t.cross_l]
+            if tl != inst and not type_diff:
+                type_diff.append((list(map(list, seq)), inst, tl))
+        return inst, m
     # structure and names
     got0, m = observe([])
     for j, cr in enumerate(spec['crosses']):
@@ -192,6 +206,10 @@ def run_case(spec):
                     [[list(a), list(b), list(c)] for a, b, c in seq])
                 break
     cnt["states"] = len(seen)
+    if type_diff:
+        sq, inst, tl = type_diff[0]
+        bad("type_level_cross", "after samples %r the instance's cross counters are %r but the type-level cross (single instance) "
+            "holds %r" % (sq, inst, tl), tl, inst, [[list(a), list(b), list(c)] for a, b, c in sq])
     CoverageRegistry.clear()
     return {"cnt": cnt, "viol": viol}
 
